@@ -14,7 +14,7 @@ from ..ref import Graph
 LEVEL = "exploration"
 TECHNIQUE = 'runtime monitoring: per-item invariant monitor on generated datasets (reference BFS + re-implemented endpoint-option semantics); pool-size / maxtasksperchild sweep with injected delays at a probe inside forked workers and an offline check of the recorded task->worker event log'
 RULE = ("MazeDataset.generate / from_config over generator x kwargs (the 8 DEFAULT_GENERATORS, gen_prim, constrained variants) x "
-        "grid 2..8,12 x n_mazes {0,1,3,8,32} x seeds x endpoint-option sets (none; allowed start/end lists of size 1,2,many incl. "
+        "grid 2..8,12 (some 16, 20) x n_mazes {0,1,3,8,32} (some 130, 260) x seeds x endpoint-option sets (none; allowed start/end lists of size 1,2,many incl. "
         "cells outside the component; dead-end flags; endpoints_not_equal; combinations), serially and in parallel with processes "
         "in {1,2,3,5,8,16} and maxtasksperchild in {None,1,2}; a PY_START probe inherited by the forked workers injects 0-3 ms "
         "jitter into _generate_maze_helper and logs (pid, index), so task->worker schedules vary and are recorded. Every item is "
@@ -27,7 +27,7 @@ THRESHOLDS = {"quick": {
     "c03:datasets": 300, "c03:items": 2500, "c03:parallel-runs": 20, "c03:distinct-schedules": 10, "c03:opt:allowed_start": 100,
     "c03:opt:allowed_end": 100, "c03:opt:deadend_start:nontrivial": 100, "c03:opt:deadend_end:nontrivial": 100,
     "c03:opt:endpoints_not_equal": 100, "c03:opt:deadend+allowed-same-endpoint:nontrivial": 30, "c03:opt:none": 500, "c03:equal-endpoints-allowed-and-seen": 5, "c03:empty-dataset": 5,
-    "c03:from_config": 30, "c03:worker-pids": 30, "hits:_generate_maze_helper": 1000,
+    "c03:from_config": 30, "c03:many-mazes": 20, "c03:large-grid": 15, "c03:worker-pids": 30, "hits:_generate_maze_helper": 1000,
 }}
 THRESHOLDS["thorough"] = {**THRESHOLDS["quick"], "c03:datasets": 4000, "c03:parallel-runs": 300, "c03:distinct-schedules": 100}
 ANCHORS = ["maze_dataset.dataset.maze_dataset:_generate_maze_helper",
@@ -172,6 +172,14 @@ def run(ctx):
         n_mazes = [0, 1, 3, 8, 32][int(rng.integers(5))]
         if g_n == 12:
             n_mazes = min(n_mazes, 8)
+        if i % 16 == 5 and g_n > 1:
+            # many mazes (indices past 127 / 255) on a small grid
+            g_n, n_mazes = min(g_n, 4), [130, 260][int(rng.integers(2))]
+            ctx.tally("c03:many-mazes")
+        elif i % 20 == 7 and gen != "gen_wilson":
+            # large grid (more than 255 cells), few mazes
+            g_n, n_mazes = [16, 20][int(rng.integers(2))], int(rng.integers(1, 4))
+            ctx.tally("c03:large-grid")
         opts = endpoint_options(g_n, rng) if g_n > 1 else {}
         seed = int(rng.integers(0, 2**31 - 1)) if rng.random() < 0.7 else [0, 42, 7][int(rng.integers(3))]
         parallel = (i % 5 == 0) and n_mazes > 0
